@@ -13,6 +13,7 @@ import (
 	sdk "github.com/cosmos/cosmos-sdk/types"
 	authcodec "github.com/cosmos/cosmos-sdk/x/auth/codec"
 
+	ophosttypes "github.com/initia-labs/OPinit/x/ophost/types"
 	"github.com/initia-labs/OPinit/x/ophost/types/hook"
 )
 
@@ -137,7 +138,20 @@ type c19Gen struct {
 func newC19Scenario(seed uint64, id int) *c19Gen {
 	f := &c19Fakes{}
 	ac := authcodec.NewBech32Codec(sdk.GetConfig().GetBech32AccountAddrPrefix())
-	h := hook.NewBridgeHook(c19ChanKeeper{f}, c19PermKeeper{f}, ac)
+	real := hook.NewBridgeHook(c19ChanKeeper{f}, c19PermKeeper{f}, ac)
+	// wired as the application wires it: through the composite types.BridgeHooks, alone or with
+	// a trivial hook before / after it
+	var h ophosttypes.BridgeHook
+	switch (seed + uint64(id)) % 4 {
+	case 0:
+		h = ophosttypes.NewBridgeHooks(real)
+	case 1:
+		h = ophosttypes.NewBridgeHooks(noHook{}, real)
+	case 2:
+		h = ophosttypes.NewBridgeHooks(real, noHook{})
+	default:
+		h = ophosttypes.NewBridgeHooks(noHook{}, real, noHook{})
+	}
 	e := NewL1Env(seed, 7, h, "c19chan", "c19perm")
 	f.chanKey, f.permKey = e.Keys["c19chan"], e.Keys["c19perm"]
 	e.EnvOp = func(ctx sdk.Context, o L1Op) error {
@@ -203,7 +217,7 @@ func (g *c19Gen) genMeta() ([]byte, string) {
 	}
 	list := "[" + strings.Join(items, ",") + "]"
 	one := c19Entry(c19Universe[r.Intn(4)])
-	switch r.Weighted([]int{34, 5, 6, 6, 5, 5, 5, 5, 4, 6, 4, 5, 3, 3, 2, 2}) {
+	switch r.Weighted([]int{30, 5, 6, 6, 5, 5, 5, 5, 4, 6, 4, 5, 3, 3, 2, 2, 5, 4, 3}) {
 	case 0:
 		return []byte(`{"perm_channels":` + list + `}`), "valid"
 	case 1:
@@ -239,6 +253,15 @@ func (g *c19Gen) genMeta() ([]byte, string) {
 		return []byte(`{"perm_channels":[{"port_id":"transfer"}]}`), "missing-inner-field"
 	case 14:
 		return []byte(`{"perm_channels":[` + one + `,` + one + `]}`), "repeated-channel"
+	case 16: // the KEY written with JSON unicode escapes: the same JSON document
+		key := []string{`perm\u005fchannels`, `\u0070erm_channels`, `perm_ch\u0061nnels`}[r.Intn(3)]
+		return []byte(`{"` + key + `":` + list + `}`), "escaped-key"
+	case 17: // inner keys / values with escapes, reordered inner keys, newlines
+		pc := c19Universe[r.Intn(4)]
+		ent := fmt.Sprintf("{\n\"channel\\u005fid\" : \"%s\",\n\"port_id\":\"%s\"}", strings.Replace(pc[1], "-", `\u002d`, 1), strings.Replace(pc[0], "t", `\u0074`, 1))
+		return []byte("\n{\"perm_channels\":[" + ent + "]}\n"), "escaped-inner-reordered"
+	case 18: // differently-cased exact duplicate before the exact key; escaped solidus in a value
+		return []byte(`{"Perm_Channels":[` + one + `],"perm_channels":[{"port_id":"transfer","channel_id":"channel\/x"}]}`), "cased-duplicate-then-exact-escaped-solidus"
 	default:
 		return []byte(`{"perm_channels":[{"port_id":"tr\u0061nsfer","channel_id":"channel-0"}],"perm_channels":[{"port_id":"tr\u0061nsfer","channel_id":"ch\u0061nnel-1"}]}`), "escapes-and-duplicate"
 	}
